@@ -977,6 +977,18 @@ theorem top_advance_slot_1_check_insufficient (pq : PQ) (x a b : MergedIter.Item
   have := ((top_replace_pq_iff pq x h0 hh).mp hcon).2 b h2
   omega
 
+/-- **queue_calls_keep_heap_and_drain_sorted.** From the queue `heap.Init` makes of ANY items, after
+ANY sequence of calls that does not panic — the item in any slot replaced by anything + `heap.Fix` at
+that slot, `heap.Pop`, `Push; Fix(item.index)` — the queue is a heap, and popping it until it is empty
+delivers every remaining item exactly once in non-decreasing key order (what area `tableheap` checks
+on the real priorityQueue). -/
+theorem queue_calls_keep_heap_and_drain_sorted (items : PQ) (ops : List QOp) (pq : PQ)
+    (hr : QOp.runAll (heapInit pqIface items) ops = some pq) :
+    IsHeapPQ pq ∧ ((popAll pq.length pq).map core).Perm (pq.map core) ∧
+    (popAll pq.length pq).Pairwise (fun a b => a.key ≤ b.key) := by
+  have hh := QOp.runAll_heap ops _ pq (heapInit_pq items).1 hr
+  exact ⟨hh, popAll_spec pq.length pq (Nat.le_refl _) hh⟩
+
 /-! ## the hypotheses are satisfiable (non-vacuity) -/
 
 /-- a three-container layout (array, run crossing nothing, bitmap stand-in) is well-formed; its rank at a
@@ -1000,6 +1012,14 @@ example :
   refine ⟨hh, by decide, ?_, by decide, by decide⟩
   exact (top_advance_slot_1_check_insufficient pq x ⟨1, 5, [], 1⟩ ⟨2, 2, [], 2⟩ hh (by decide) (by decide)
     (by decide) (by decide)).2.1
+
+/-- a sequence of queue calls that does not panic: Fix in the root, in an inner slot, in a leaf, Pop, Push —
+and the drain of what is left -/
+example :
+    let ops : List QOp := [.fix 0 ⟨0, 8, [], 0⟩, .fix 1 ⟨1, 0, [], 1⟩, .fix 4 ⟨4, 2, [], 4⟩, .pop, .push ⟨9, 4, [], 0⟩]
+    let items : PQ := [⟨0, 5, [], 0⟩, ⟨1, 3, [], 1⟩, ⟨2, 9, [], 2⟩, ⟨3, 1, [], 3⟩, ⟨4, 7, [], 4⟩]
+    (QOp.runAll (heapInit pqIface items) ops).map (fun pq => (pq.map (·.key), (popAll pq.length pq).map (·.key))) =
+      some ([2, 3, 9, 8, 4], [2, 3, 4, 8, 9]) := by decide
 
 /-- an operation sequence inside the protocol with a rejected stream key that carries data, a write with
 no stream open and a double commit -/
